@@ -53,4 +53,79 @@ def admitted (tbl : List AliasRow) (op : OpK) (kc : Kind × Cat) : Bool :=
   | some r => r.inScope && !isKnown r
   | none => false
 
+/-! ## public entry points (direction: "never mutate caller data" speaks about EVERY public callable) -/
+
+/-- how a public callable of typedpy is covered by this property -/
+inductive ApiClass
+  | op (o : OpK)      -- an entry point of operation `o` of the heap model (its argument rows are in the table)
+  | probe             -- outside the heap model; arguments snapshotted before / after by a direct probe on every run
+  | outside           -- takes no caller-owned mutable data (configuration flags, type predicates, decorators over
+                      -- functions / classes, markers) or belongs to another property (stub generation: C16)
+  deriving DecidableEq, Repr, Inhabited
+
+/-- one row per public function / method / non-field class; a public callable without a row breaks `api_covered` -/
+def apiRows : List (String × ApiClass) := [
+  -- construction and the alternative constructors
+  ("Structure", .op .construct), ("ImmutableStructure", .op .construct), ("AbstractStructure", .op .construct),
+  ("FinalStructure", .op .construct), ("ErrorInfo", .op .construct),
+  ("Structure.shallow_clone_with_overrides", .op .construct), ("Structure.cast_to", .op .construct),
+  ("Structure.to_other_class", .op .construct), ("Structure.from_other_class", .op .construct),
+  ("Structure.from_trusted_data", .probe),
+  -- (de)serialization
+  ("Deserializer", .op .deserialize), ("Deserializer.deserialize", .op .deserialize),
+  ("deserialize_structure", .op .deserialize), ("deserialize_single_field", .probe),
+  ("deserializer_by_discriminator", .probe),
+  ("Serializer", .op .serialize), ("Serializer.serialize", .op .serialize), ("serialize", .op .serialize),
+  ("serialize_field", .probe), ("Field.serialize", .op .fieldSerialize),
+  ("create_serializer", .op .fastSerialize), ("FastSerializable", .op .fastSerialize),
+  ("FastSerializable.serialize", .op .fastSerialize),
+  -- versioned conversion and mapper values
+  ("convert_dict", .op .convert), ("Versioned", .op .convert), ("Constant", .op .convert), ("Deleted", .op .convert),
+  ("FunctionCall", .op .convert),
+  -- class derivation
+  ("Extend", .op .derive), ("Omit", .op .derive), ("Pick", .op .derive), ("Partial", .op .derive),
+  ("AllFieldsRequired", .op .derive), ("Structure.omit", .probe), ("Structure.pick", .probe),
+  -- schema
+  ("structure_to_schema", .op .toSchema), ("Field.to_json_schema", .op .toSchema),
+  ("schema_to_struct_code", .op .schemaToCode), ("schema_definitions_to_code", .op .schemaToCode),
+  ("Field.from_json_schema", .op .schemaToCode), ("write_code_from_schema", .probe),
+  -- accessors that hand out class-level state
+  ("Structure.get_all_fields_by_name", .probe), ("Structure.get_aggregated_serialization_mapper", .probe),
+  ("Structure.get_aggregated_deserialization_mapper", .probe),
+  -- helpers over caller data
+  ("deep_get", .probe), ("flatten", .probe), ("first_in", .probe), ("create_typed_field", .probe),
+  ("get_simplified_error", .probe), ("standard_readable_error_for_typedpy_exception", .probe),
+  -- no caller-owned mutable data: getters of what the caller passed, flags, type predicates, decorators, markers
+  ("Deserializer.mapper", .outside), ("Serializer.mapper", .outside), ("Field.get_type", .outside),
+  ("Structure.failing_fast", .outside), ("Structure.is_non_typedpy_field_assignment_blocked", .outside),
+  ("Structure.set_additional_properties_default", .outside), ("Structure.set_auto_enum_conversion", .outside),
+  ("Structure.set_block_non_typedpy_field_assignment", .outside),
+  ("Structure.set_compact_deserialization_default", .outside), ("Structure.set_compact_serialization_default", .outside),
+  ("Structure.set_fail_fast", .outside), ("Structure.trust_supplied_values", .outside),
+  ("Structure.used_trusted_instantiation", .outside),
+  ("DoNotSerialize", .outside), ("HasTypes", .outside), ("MultiFieldWrapper", .outside), ("SizedCollection", .outside),
+  ("TypedPyDefaults", .outside), ("Undefined", .outside), ("mappers", .outside),
+  ("default_factories", .outside), ("get_list_type", .outside), ("keys_of", .outside), ("nested", .outside),
+  ("type_is_generic", .outside), ("unique", .outside),
+  -- stub generation (files in, files out): property C16
+  ("create_pyi", .outside), ("create_stub_for_file", .outside), ("create_stub_for_file_using_ast", .outside)]
+
+/-- Field subclasses are declarations (their constructor arguments `values` / `items` / `default` / `fields` are
+    covered by the `declare:fields` probe and the class-level sites of the table), exception classes and plain
+    values take no caller data: classified by kind; everything else needs a row by name -/
+def apiKindCovered (kind : String) : Bool := kind == "field" || kind == "exception" || kind == "value"
+
+def apiCovered (api : List (String × String)) : Bool :=
+  api.all fun p => apiKindCovered p.2 || apiRows.any fun r => r.1 == p.1
+
+/-- every row that is not `outside` names something the suite really exercises -/
+def apiRowsProbed (probed : List String) : Bool :=
+  apiRows.all fun r => r.2 == .outside || probed.contains r.1
+
+/-- every `op` row points at an operation the table has rows for, none of which edits an argument -/
+def apiOpsInTable (tbl : List AliasRow) : Bool :=
+  apiRows.all fun r => match r.2 with
+    | .op o => (tbl.any fun t => t.op == o) && (tbl.all fun t => !(t.op == o) || !t.argMutated)
+    | _ => true
+
 end Typedpy.C19
